@@ -62,7 +62,7 @@ ARITH_TWINS = [k for k in KANI if k.startswith('arith_')]
 
 PROPS = {
     'C12': dict(
-        units=['interp', 'macros', 'interp_vm_g0'],
+        units=['interp', 'macros', 'interp_vm_g0', 'interp_vm_g7'],
         not_covered=['that 32 frames fit the default stack (a machine resource)', 'JSON -> CelValue equality (serde_json is opaque)',
                      'rebinding / re-adding replaces: HashMap::insert semantics of BindContext / CelContext (std)'],
         assumptions=['ScopedCounter RAII (the increment is undone on scope exit)'],
